@@ -32,6 +32,8 @@ def base_text(name):
 
 
 CELL_VALUES = [
+    "9223372036854775808", "9223372036854775807", "18446744073709551616", "-9223372036854775809", "4294967296", "2147483648", "65536", "256",
+    "9223372036854775808", "18446744073709551615", "1" + "0" * 40, "-" + "9" * 25,
     "", "default", "DEFAULT", "0", "1", "-1", "2", "3", "64", "999", "1e3", "1.5", "0x10", " 7 ", "+5", "1_0", "٣", "TRUE", "false", "yes", "maybe",
     "high_quality", "low_delay", "unconstrained", "hd", "pictures_are_fields", "le_gall_5_3", "fidelity", "color_4_2_0", "interlaced",
     "real", "imag", "numerator", "denominator", "conjugate", "bit_length", "to_bytes", "mro", "value", "__doc__", "__class__", "__members__", "__name__", "_member_names_", "None", "True",
@@ -189,7 +191,7 @@ class C28(Spec):
                 f["from"], f["to"] = rng.randrange(8), rng.randrange(8)
             elif k == "col_pair":
                 f["col"] = rng.randrange(8)
-                f["row1"] = rng.choice(["name", "name", "lossless", "dwt_depth", "dwt_depth_ho", "profile"])
+                f["row1"] = rng.choice(["name", "name", "lossless", "dwt_depth", "dwt_depth_ho", "dwt_depth", "dwt_depth_ho", "profile", "quantization_matrix", "picture_bytes", "wavelet_index"])
                 f["row2"] = rng.choice(ROW_KEYS)
                 f["v1"], f["v2"] = rng.choice(CELL_VALUES), rng.choice(CELL_VALUES)
             elif k == "cell":
